@@ -89,13 +89,18 @@ Definition key_id (x : cnode) (key : str) : cnode * N :=
 Definition log_append (x : cnode) (r : oprec) : cnode :=
   mkCN (cn_node x) (cn_log x ++ [r]) (cn_keymap x) (cn_clients x) (cn_dead x).
 
+(* reserved key ids of create-db and snapshot records (fix: u64::MAX and u64::MAX - 1; they were 1 and 2,
+   the ids of the second and third key ever written) *)
+Definition marker_create : N := 18446744073709551615.
+Definition marker_snapshot : N := 18446744073709551614.
+
 (* oplog part: returns the op id to replicate under, None = "Missing DB Id" *)
 Definition repl_oplog (x : cnode) (rq : request) (id : N) : cnode * option N :=
   let n := cn_node x in
   match rq with
   | RqCreateDb _ name _ =>
       match db_id_of n name with
-      | Some d => (log_append x (mkRec id 1 d 2), Some id)
+      | Some d => (log_append x (mkRec id marker_create d 2), Some id)
       | None => (x, None)
       end
   | RqReplicateSnapshot _ names =>
@@ -104,7 +109,7 @@ Definition repl_oplog (x : cnode) (rq : request) (id : N) : cnode * option N :=
                    match r0 with
                    | None => (x0, None)
                    | Some _ => match db_id_of (cn_node x0) nm with
-                               | Some d => (log_append x0 (mkRec id 2 d 3), Some id)
+                               | Some d => (log_append x0 (mkRec id marker_snapshot d 3), Some id)
                                | None => (x0, None)
                                end
                    end) names (x, Some id)
